@@ -213,6 +213,19 @@ func (p c09) Gen(r *simhook.Rand, tier string, idx int) harness.Scenario {
 		action = "drain"
 	}
 	sc := p.withAction(b, action, 1+r.Intn(250), r.Chance(1, 2))
+	if sc.R != nil && action == "stop" && len(sc.R.Conns) > 0 && sc.Backend != "closed" && r.Chance(1, 5) {
+		// the stop (or, half of the time, the replacement of the whole host list, which stops every backend client too)
+		// lands while the periodic hot-key collection is at work: placed by site, ten simulated seconds or more into
+		// the run, instead of by step count
+		f := &sc.R.Faults[len(sc.R.Faults)-1]
+		f.AfterStart = 0
+		f.Site = []string{"(*Collector).collect#", "(*Counter).Latch#", "(*Collector).evictStale#"}[r.Intn(3)]
+		f.Nth = 1 + r.Intn(8)
+		if r.Chance(1, 2) {
+			sc.R.Faults = append(sc.R.Faults[:len(sc.R.Faults)-1], Fault{Kind: "host-replace", Site: f.Site, Nth: f.Nth}, Fault{Kind: "stop", Site: "(*Collector).collect#", Nth: f.Nth + 1 + r.Intn(20)})
+		}
+		sc.R.Class += "+during-collection"
+	}
 	if r.Chance(1, 6) && action == "drain" {
 		// drain, then stop
 		if sc.R != nil {
